@@ -193,24 +193,63 @@ class FilterLoopInv:
 
 
 class CountLoopInv:
-    """macro_exists_one: `count` equals the number of elements kept by the filter so far"""
+    """macro_exists_one: `count` equals the number of elements seen so far whose body outcome is true"""
 
     def holds(self, run, env):
         c = run.lookup("count", env)
         g = run.ghost
         want = g.get("count_ghost", z3.IntVal(0))
-        kept_now = sum(1 for (_, keep) in g.get("filter_log", []) if keep)
-        return isinstance(c, VInt) and c.t == want + kept_now
+        new = g.get("body_log", [])[g.get("count_mark", 0):]
+        inc = z3.IntVal(0)
+        for _, o in new:
+            if isinstance(o, VInt):
+                inc = inc + z3.If(o.t != 0, 1, 0)
+        return isinstance(c, VInt) and c.t == want + inc
 
     def havoc(self, run, env):
         c = run.fresh_int("count")
         run.assume(c >= 0)
         env.vars["count"] = VInt(int, c)
         run.ghost["count_ghost"] = c
-        run.ghost["filter_log"] = []
+        run.ghost["count_mark"] = len(run.ghost.get("body_log", []))
 
     def done(self, run, env):
         run.ghost["final_count"] = run.ghost["count_ghost"]
+
+
+class MapLoopInv:
+    """macro_map: `values` holds one image per element consumed so far, the one appended in this iteration being the
+    body's outcome for the element just bound; when the loop ends every element of the receiver has been consumed"""
+
+    def __init__(self, recv):
+        self.recv = recv
+        self.cur = None
+
+    def holds(self, run, env):
+        v = run.lookup("values", env)
+        if isinstance(v, VList):
+            return len(v.items) == 0
+        if v is not self.cur:
+            return False
+        app = [x for (lst, x) in run.ghost.get("appended", []) if lst is v]
+        outs = [o for _, o in run.ghost.get("body_log", [])[self.mark:]]
+        return len(app) == len(outs) == 1 and app[0] is outs[0]
+
+    def havoc(self, run, env):
+        k = run.fresh_int("consumed")
+        run.assume(k >= 0)
+        self.cur = VSymList(list, lambda run: VObj(elems.Elem, {}, label="image"), "images-so-far")
+        self.cur.length = k
+        env.vars["values"] = self.cur
+        env.vars.pop("value", None)
+        run.ghost["appended"] = []
+        self.mark = len(run.ghost.get("body_log", []))
+
+    def done(self, run, env):
+        final = VSymList(list, lambda run: VObj(elems.Elem, {}, label="image"), "images")
+        final.length = self.recv.length
+        env.vars["values"] = final
+        run.ghost["images_final"] = final
 
 
 def compiled_contracts():
@@ -230,7 +269,13 @@ def compiled_contracts():
 
             def body_(run, activation):
                 bound = activation.attrs["bound"].pairs[0][1] if isinstance(activation, VObj) and "bound" in activation.attrs else None
-                k = run.choose(len(T.RESULT_EXCS) + 1, "body-kind")
+                k = run.choose(len(T.RESULT_EXCS) + 2, "body-kind")
+                if k == len(T.RESULT_EXCS) + 1:
+                    # the body yields an error as a VALUE (it is ||, &&, ?: ...): that error is the macro's result
+                    err = VObj(ev.CELEvalError, {"args": VTuple([])}, label="body error value")
+                    log.append((bound, "EV"))
+                    run.ghost["body_error_value"] = err
+                    return err
                 if k > 0:
                     log.append((bound, "E"))
                     raise se.PyRaise(VObj(T.RESULT_EXCS[k - 1], {"args": VTuple([VStr(str, "hole")])}))
@@ -242,16 +287,22 @@ def compiled_contracts():
                 run.ghost["loop_inv"] = {None: FilterLoopInv()}
             if name == "exists_one":
                 run.ghost["loop_inv"] = {None: CountLoopInv()}
+            if name == "map":
+                run.ghost["loop_inv"] = {None: MapLoopInv(S.recv)}
             return run.call(VNative(fn), [act, VStr(str, "x"), cel_expr, cel_gen])
 
         def post(S, r, name=name):
             g = S._run.ghost
+            if is_error(r):
+                return r is g.get("body_error_value")          # only an error value of the body comes back as a value
+            if any(o == "EV" for _, o in g.get("body_log", [])):
+                return False                                    # ... and it always does
             drawn, bl = g.get("drawn", []), g.get("body_log", [])
             bound_ok = len(bl) == len(drawn) and all(b is d for (b, _), d in zip(bl, drawn))
             if name == "map":
-                ok = isinstance(r, VSymList) and r.cls is ct.ListType and r.length is not None and z3.eq(r.length, S.recv.length)
-                probes = [p for (lst, p) in g.get("list_probe", []) if lst is r]
-                return bool(ok and bound_ok and all(any(p is o for _, o in bl) for p in probes))
+                ok = isinstance(r, VSymList) and r.cls is ct.ListType and r.length is not None and z3.eq(r.length, S.recv.length) \
+                    and any(lst is r and src is g.get("images_final") for lst, src in g.get("list_from", []))
+                return bool(ok and bound_ok)
             if name == "filter":
                 ok = isinstance(r, VSymList) and r.cls is ct.ListType and \
                     any(lst is r and getattr(src, "source", None) is g.get("kept") for lst, src in g.get("list_from", []))
